@@ -118,6 +118,8 @@ def run(fx, rep):
     for s in m.sites():
         for p in s['paths']:
             p = re.sub(r'\[\d+\]', '[*]', p)
+            if p not in paths and s['callee'].endswith('resolve_all') and (p + '[*]') in paths:
+                p = p + '[*]'          # a whole Vec<Expression> handed to resolve_all, which evaluates every element
             rep.check(p in paths, 'R1', 'evaluator-evaluates/%s' % p, s['loc'], 'an expression field (covered by the collector: %s)' % (p in visited),
                       'evaluator evaluates %s which is not an expression field by the type definitions (fail closed)' % p)
     # list elements are evaluated in a closure
